@@ -50,15 +50,7 @@ def _lpg_signature(prog, obs):
     for n in obs["la"]:
         if gn[n - 1][0] == 0:
             sig.add("label-index")
-    kinds = {o[0] for th in prog["threads"] for o in th}
-    out = set()
-    if "prop-index" in sig and "sp" in kinds:
-        out.add("LpgPropIndexTear")
-    if "label-index" in sig and "al" in kinds and "dn" in kinds:
-        out.add("LpgAddLabelDeleteRace")
-    if "label-index" in sig and "al" in kinds and "rl" in kinds:
-        out.add("LpgLabelAddRemoveTear")
-    return out
+    return sig
 
 
 def _lpg_trace(args):
@@ -69,33 +61,28 @@ def _lpg_trace(args):
 def lpg_part(rep, wd, tier, seed):
     """LpgStore mutators: LpgConc.tla (sections, linearizability), LpgLocks.tla (lock order), controlled and free-running real threads"""
     import concurrent.futures as cf
-    known = {f["id"]: f for f in V.known_for("C20") if f["status"] == "known"}
     mcs = []
     states = trans = 0
     mcmod = os.path.join(D, "MC_LpgConc.tla")
-    asis_nonlin = set()
-    # ---- 1. TLC: the repaired design (mutators atomic) holds everywhere; the as-is sections are explored too
+    # ---- 1. TLC: every interleaving of the sections of the current tree is linearizable; the pinned tree's sections are not
     for prog, nth in LPG_PROGS.items():
-        for asis in ("{}", '{"SplitSections"}'):
-            cfgp = os.path.join(wd, f"mc-lpg-{prog}-{len(asis)}.cfg")
-            V.write_cfg(cfgp, constants={"Threads": V.tla_set([str(i) for i in range(1, nth + 1)]), "AsIs": asis},
-                        invariants=LPG_INVS if asis == "{}" else ["Linearizable", "UniqueIds"], check_deadlock=False)
-            _inject(cfgp, f"  Prog <- {prog}\n")
-            r = V.tlc(mcmod, cfgp, name=f"C20lpg{prog}", workers=2, timeout=600)
-            states += r.distinct
-            trans += r.generated
-            if asis == "{}":
-                mcs.append({"config": f"LpgConc {prog} ({nth} threads), mutators atomic, all interleavings", **r.summary()})
-                if not r.ok and not r.timeout:
-                    rep.violation(f"TLC: {r.violation} violated in LpgConc {prog} (repaired design)", {"tlc": V.tlc_trace_text(r)[-5000:]}, tag="mc")
-            else:
-                mcs.append({"config": f"LpgConc {prog} AsIs={{SplitSections}} (the pinned tree's lock scopes)", "violates": r.violation, "distinct": r.distinct})
-                if r.violation == "Linearizable":
-                    asis_nonlin.add(prog)
-                elif not r.ok and not r.timeout:
-                    rep.violation(f"TLC: {r.violation} violated in LpgConc {prog} as-is", {"tlc": V.tlc_trace_text(r)[-5000:]}, tag="mc")
-    if "ProgSpSp" not in asis_nonlin:
-        raise V.ToolError("vacuity: switch SplitSections does not violate Linearizable in LpgConc ProgSpSp")
+        cfgp = os.path.join(wd, f"mc-lpg-{prog}.cfg")
+        V.write_cfg(cfgp, constants={"Threads": V.tla_set([str(i) for i in range(1, nth + 1)]), "AsIs": "{}"}, invariants=LPG_INVS, check_deadlock=False)
+        _inject(cfgp, f"  Prog <- {prog}\n")
+        r = V.tlc(mcmod, cfgp, name=f"C20lpg{prog}", workers=2, timeout=600)
+        states += r.distinct
+        trans += r.generated
+        mcs.append({"config": f"LpgConc {prog} ({nth} threads), all interleavings of the lock scopes", **r.summary()})
+        if not r.ok and not r.timeout:
+            rep.violation(f"TLC: {r.violation} violated in LpgConc {prog}", {"tlc": V.tlc_trace_text(r)[-5000:]}, tag="mc")
+    for sw, prog in (("SplitProps", "ProgSpSp"), ("SplitLabels", "ProgAlDn"), ("SplitLabels", "ProgAlRl")):
+        cfgp = os.path.join(wd, f"sw-lpg-{sw}-{prog}.cfg")
+        V.write_cfg(cfgp, constants={"Threads": "{1, 2}", "AsIs": V.tla_strset([sw])}, invariants=["Linearizable"], check_deadlock=False)
+        _inject(cfgp, f"  Prog <- {prog}\n")
+        r = V.tlc(mcmod, cfgp, name=f"C20lpgsw{prog}", workers=2, timeout=300)
+        if r.violation != "Linearizable":
+            raise V.ToolError(f"vacuity: switch {sw} does not violate Linearizable in LpgConc {prog}")
+        mcs.append({"config": f"witness LpgConc {prog} AsIs={{{sw}}}", "violates": "Linearizable", "distinct": r.distinct})
     # lock order: every pair / triple of mutators, no deadlock; the pinned tree's add_label / remove_label scopes must deadlock
     lmod = os.path.join(D, "LpgLocks.tla")
     for nth in ((2, 3) if tier == "quick" else (2, 3)):
@@ -134,7 +121,7 @@ def lpg_part(rep, wd, tier, seed):
             cur = e["name"]
         byprog.setdefault(cur, []).append(e)
     cfgp = os.path.join(wd, "trace-lpg.cfg")
-    V.write_cfg(cfgp, spec="TSpec", constants={"AsIs": '{"SplitSections"}'}, postcondition="Accepted")
+    V.write_cfg(cfgp, spec="TSpec", constants={"AsIs": "{}"}, postcondition="Accepted")
     _inject(cfgp, "  Threads <- TThreads\n  Prog <- TProg\n")
     jobs = []
     for pn, es in byprog.items():
@@ -143,7 +130,6 @@ def lpg_part(rep, wd, tier, seed):
         jobs.append((pn, p, cfgp))
     runs = nontriv = nev = 0
     scheds = set()
-    seen = {}
     with cf.ThreadPoolExecutor(max_workers=6) as ex:
         for pn, r in ex.map(_lpg_trace, jobs):
             es = byprog[pn]
@@ -175,21 +161,10 @@ def lpg_part(rep, wd, tier, seed):
                 idx = int(m.group(1)) - 1
                 start = max(i for i in range(idx + 1) if es[i]["a"] == "reset")
                 sched = [x["th"] for x in es[start: idx] if x["a"] == "step"]
-                ids = _lpg_signature(es[start]["prog"], e["obs"])
-                if ids and ids <= set(known) and pn in asis_nonlin:
-                    for i in ids:
-                        seen.setdefault(i, (pn, sched, e))
-                else:
-                    rep.violation(f"LpgStore {pn}: real threads {'(free-running) ' if e.get('free') else 'under schedule ' + str(sched) + ' '}returned {json.dumps(e['rets'])} and left "
-                                  f"{json.dumps(e['obs'])[:400]}: no sequential order of the operations explains it (LpgConc.tla LinObs)",
-                                  {"model": "lpg", "prog": es[start]["prog"], "name": pn, "schedule": sched, "end": e}, tag="lpg")
-    for i, k in known.items():
-        if i.startswith("Lpg"):
-            if i in seen:
-                pn, sched, e = seen[i]
-                rep.known(i, k["what_fails"] + f" [{pn}, schedule {sched}]")
-            else:
-                rep.notes.append(f"known finding {i} did not reproduce in this run")
+                what = ", ".join(sorted(_lpg_signature(es[start]["prog"], e["obs"]))) or "returned values / ids / adjacency"
+                rep.violation(f"LpgStore {pn}: real threads {'(free-running) ' if e.get('free') else 'under schedule ' + str(sched) + ' '}returned {json.dumps(e['rets'])} and left "
+                              f"{json.dumps(e['obs'])[:400]}: no sequential order of the operations explains it (LpgConc.tla LinObs; disagreeing structure: {what})",
+                              {"model": "lpg", "prog": es[start]["prog"], "name": pn, "schedule": sched, "end": e}, tag="lpg")
     # ---- 3. deadlock hunt: tight loops of mutator pairs / triples on one store, watchdog
     lp = os.path.join(wd, "lpg-loops.ndjson")
     rc, out, _ = V.gv(["lpgstress", "--progs", os.path.join(D, "lpg_loops.ndjson"), "--loops", 100000 if tier == "quick" else 2000000, "--limit", 60 if tier == "quick" else 600, "--out", lp], timeout=4000, check=False)
@@ -358,7 +333,7 @@ def replay(path):
         else:
             V.gv(["lpgstress", "--progs", pp, "--rounds", 20000, "--out", tp], timeout=600, check=False)
         cfgp = os.path.join(wd, "t.cfg")
-        V.write_cfg(cfgp, spec="TSpec", constants={"AsIs": '{"SplitSections"}'}, postcondition="Accepted")
+        V.write_cfg(cfgp, spec="TSpec", constants={"AsIs": "{}"}, postcondition="Accepted")
         _inject(cfgp, "  Threads <- TThreads\n  Prog <- TProg\n")
         res = V.tlc(os.path.join(D, "Trace_LpgConc.tla"), cfgp, name="replay-lpg", workers=1, timeout=900, dfs=True, env={"TRACE": tp})
         bad = re.findall(r'<<"(NONLIN|REJECT)", (\d+)', res.out)
